@@ -1213,6 +1213,59 @@ func ruleGR6() Rule {
 						return true
 					})
 				}
+				// ... and in the constant tables those functions consult (an operator tree, a
+				// table of continuation characters); the ops table itself only spells tokens
+				// for messages and does not count
+				{
+					pk := c.P.Pkgs[pkg]
+					tables := map[*types.Var]bool{}
+					for _, f := range c.funcsOfPkg(pkg, false) {
+						if !strings.Contains(f.Name, "lexer") {
+							continue
+						}
+						f.OwnNodes(func(n ast.Node) bool {
+							if id, ok := n.(*ast.Ident); ok {
+								if v, ok := f.Info().Uses[id].(*types.Var); ok && v.Pkg() == pk.Types && v.Parent() == pk.Types.Scope() && v.Name() != "ops" && c.constantGlobal(v) {
+									tables[v] = true
+								}
+							}
+							return true
+						})
+					}
+					for _, file := range pk.Syntax {
+						for _, d := range file.Decls {
+							gd, ok := d.(*ast.GenDecl)
+							if !ok {
+								continue
+							}
+							for _, sp := range gd.Specs {
+								vs, ok := sp.(*ast.ValueSpec)
+								if !ok {
+									continue
+								}
+								for i, nm := range vs.Names {
+									v, _ := pk.TypesInfo.Defs[nm].(*types.Var)
+									if v == nil || !tables[v] || i >= len(vs.Values) {
+										continue
+									}
+									ast.Inspect(vs.Values[i], func(n ast.Node) bool {
+										switch n := n.(type) {
+										case *ast.Ident:
+											if _, ok := pk.TypesInfo.Uses[n].(*types.Const); ok {
+												mention[n.Name]++
+											}
+										case *ast.BasicLit:
+											if n.Kind == token.CHAR {
+												mention[n.Value]++
+											}
+										}
+										return true
+									})
+								}
+							}
+						}
+					}
+				}
 				var all []string
 				for t := range terms {
 					all = append(all, t)
